@@ -1280,6 +1280,19 @@ CLAUSE_OPS = {
     'cardinality_leq((nv+1,nv+2,nv+3),1)':
         (lambda F, nv: F.cardinality_leq((nv + 1, nv + 2, nv + 3), 1), lambda nv: nv + 3, None),
     'linear_fresh(nv+1,nv+3)': (_linear_fresh, lambda nv: nv + 3, None),
+    # the same insertions with the literals in other legal representations
+    'cardinality_geq(generator(nv+1,-(nv+2)),1)':
+        (lambda F, nv: F.cardinality_geq((x for x in (nv + 1, -(nv + 2))), 1), lambda nv: nv + 2, None),
+    'cardinality_geq(generator(nv+2,1..),1)':
+        (lambda F, nv: F.cardinality_geq((x for x in [nv + 2] + ([1] if nv else [])), 1),
+         lambda nv: nv + 2, None),
+    'cardinality_eq(range(nv+1,nv+3),1)':
+        (lambda F, nv: F.cardinality_eq(range(nv + 1, nv + 3), 1), lambda nv: nv + 2, None),
+    'cardinality_neq(generator(nv+1),0)':
+        (lambda F, nv: F.cardinality_neq((x for x in [nv + 1]), 0), lambda nv: nv + 1, None),
+    'add_clause((nv+1,-(nv+2)))':
+        (lambda F, nv: F.add_clause((nv + 1, -(nv + 2))), lambda nv: nv + 2, None),
+    'add_parity((nv+1,),0)': (lambda F, nv: F.add_parity((nv + 1,), 0), lambda nv: nv + 1, None),
     'add_clause([])': (lambda F, nv: F.add_clause([]), lambda nv: nv, None),
     'force_last_mapping': (_force_last, lambda nv: nv, 'mapping'),
 }
@@ -1292,13 +1305,16 @@ ALPHABETS = {
 ALPHABETS['full'] = ALPHABETS['core'] + [
     'new_block(2)', 'new_block(2,1,2)', 'new_combinations(3,2)', 'new_mapping(2,2)',
     'new_graph_edges(G)', 'add_clause([-(nv+2),..])', 'add_parity([nv+1,-(nv+2)],1)',
-    'cardinality_eq([nv+2,nv+1,..],1)', 'linear_fresh(nv+1,nv+3)', 'add_clause([])']
+    'cardinality_eq([nv+2,nv+1,..],1)', 'linear_fresh(nv+1,nv+3)', 'add_clause([])',
+    'cardinality_geq(generator(nv+1,-(nv+2)),1)', 'cardinality_eq(range(nv+1,nv+3),1)']
 ALPHABETS['ext'] = ALPHABETS['full'] + [
     'new_variable(label)', 'new_block(3,0,2)', 'new_combinations_with_replacement(2,2)',
     'new_permutations(3,2)', 'new_words(2,2)', 'new_mapping(0,3)', 'new_binary_mapping(3,1)',
     'new_permutations(3,0)', 'new_combinations(3,0)', 'new_words(2,0)', 'new_permutations(3)',
     'new_bipartite_edges(B)', 'new_digraph_edges(D,pred)', 'new_digraph_edges(D,succ)',
-    'update_variable_number(nv-1)', 'cardinality_leq((nv+1,nv+2,nv+3),1)']
+    'update_variable_number(nv-1)', 'cardinality_leq((nv+1,nv+2,nv+3),1)',
+    'cardinality_geq(generator(nv+2,1..),1)', 'cardinality_neq(generator(nv+1),0)',
+    'add_clause((nv+1,-(nv+2)))', 'add_parity((nv+1,),0)']
 
 
 class St:
